@@ -79,9 +79,33 @@ CHECK_DEADLOCK FALSE
 """
 
 
+LINK_MC = """CONSTANTS
+  MaxPkts = %d
+  MaxFaults = %d
+SPECIFICATION Spec
+INVARIANTS TypeOK LossyFifo Causal
+CHECK_DEADLOCK FALSE
+"""
+LINK_TR = """CONSTANTS
+  TraceFile = "%s"
+SPECIFICATION Spec
+POSTCONDITION TraceAccepted
+CHECK_DEADLOCK FALSE
+"""
+
+
 def model_check(ctx):
     quick = ctx.tier == "quick"
     states = trans = 0
+    # the transport below GBN: send / receive retry loops over a relay stream
+    # implement the lossy order-preserving channel GBN.tla assumes
+    r = tlc(ctx, "MailboxLink", LINK_MC % ((4, 3) if quick else (5, 4)), "mc_link",
+            timeout=1500)
+    if not r["ok"]:
+        raise Infra("MailboxLink.tla violates %s:\n%s" % (r["violated"], r["out"][-1500:]))
+    ctx.cov["link_model_states"] = r["distinct"]
+    states += r["distinct"]
+    trans += r["generated"]
     # (name, spec, dirs, handshake lengths, window, relay cap, retx depth,
     #  writes, faults, properties); sizes measured: one ~65 k states, one4
     #  ~1 M (6 s), big ~7.7 M (40 s), both3 ~71 M (9 min, 12 workers)
@@ -163,6 +187,22 @@ def run(ctx):
     n, rejected, tstates = linetrace.validate(
         ctx, "MC_Trace_LNC", TR, path, "tr_lnc", keyfn, what="connection trace",
         segment_op="reset")
+    # the mailbox transport under GBN: what one end's GoBackNConn receives is
+    # what the other end's handed over, in order, with losses and in-place
+    # repetitions only (MailboxLink.tla's LossyFifo, the channel GBN.tla
+    # assumes)
+    link_lines = link_rej = 0
+    lpath = os.path.join(out, "c05link.ndjson")
+    if os.path.exists(lpath) and os.path.getsize(lpath) > 0:
+        def lkey(ln, cur, idx):
+            j = idx
+            while j > 0 and cur[j].get("ev") != "reset":
+                j -= 1
+            return "link:received-packet-not-in-order-of-sending:%s:%s" % (
+                ln.get("side"), cur[j].get("scen", "?"))
+        link_lines, link_rej, _ = linetrace.validate(
+            ctx, "Trace_Link", LINK_TR, lpath, "tr_link", lkey,
+            what="link tap log", segment_op="reset")
     scen = "?"
     unmet = expects = 0
     for i, x in enumerate(lines):
@@ -193,6 +233,8 @@ def run(ctx):
         "bytes_written": sum(x["writtenC"] + x["writtenS"] for x in ends),
         "relay_messages_seen": relay_msgs, "relay_messages_dropped": dropped,
         "stream_breaks": breaks,
+        "link_tap_lines_validated": link_lines, "link_sessions_rejected": link_rej,
+        "link_model_states": ctx.cov.get("link_model_states", 0),
         "expectations_checked": expects, "expectations_unmet": unmet,
         "samples": [r["desc"] for r in summ["runs"][:5]],
     }, [
